@@ -96,6 +96,22 @@ CLAIMED = {
         technique="JSON acceptor and result comparison specified in TLA+, evaluated by TLC on recorded real outputs; TLA+ model "
                   "of the size bookkeeping checked exhaustively",
         design="4/C14"),
+    "C19": dict(
+        text="TLC proves for every small table satisfying the axioms (non-increasing, at most one per step) that the specified "
+             "log-add is symmetric, bounded by max and max+T[0], has log-zero as identity and is monotone in each argument; "
+             "TLAPS proves the same for arbitrary tables and integers (182 obligations, re-run by the check). Branch-by-branch "
+             "transcriptions of logmath_add, of the logmath_log cast/shift and of the logmath_init table loops are checked "
+             "against that specification. For each of 23-27 real configurations (4 bases x 4 shifts, base 1.00001, bases at "
+             "the byte-width switches; widths 1/2/4) TLC validates the real table entry by entry against brackets of the exact "
+             "logarithm and what logmath_add returns for EVERY difference d = 0..size+16 in both orders at several offsets, "
+             "log-zero cases, seeded random pairs and log/exp round trips, clause by clause.",
+        note="Trusted: TLC/tlapm; the harness's x87 long-double reference (log1pl/expl/logl), spot-checked against 60-digit "
+             "decimal arithmetic; rounding allowance 2^-20 unit. Domain: integers >= logmath_get_zero() and < 2^30; p in "
+             "[1e-300, 1e30]. use_table=0 is not covered; logmath_add_exact is diagnostic only. Two genuine defects found and "
+             "repaired (fix: 3b690ea floor in logmath_log, 6ccf8dc table width).",
+        technique="TLA+ refinement (LogAddImpl/LogConvImpl/LogTableImpl => LogAdd) checked by TLC with deviation switches and "
+                  "negative controls; TLAPS proofs; exhaustive-over-d TLC trace validation of the real tables and sums",
+        design="4/C19"),
 }
 
 PENDING = "not built yet in this round (planned, see DESIGN.md section 4); no check is registered, so nothing is claimed"
